@@ -80,6 +80,8 @@ def shipped_box_lengths(ctx):
 
 
 BOX_POOL = [1.0, 2.0, 3.3, 10.0]
+# small and very large boxes: the lattice sum must be scale invariant, D_L(s) = D_1(s / L) / L^2
+SCALE_POOL = [1e-3, 0.02, 0.05, 0.1, 0.2, 0.3, 30.0, 100.0, 1e3]
 COPY_VIAS = ["deepcopy", "tagger1", "tagger2", "dill", "pickle"]
 REL_SEPS = [(1.0 / 7.0, 1.0 / 8.0, 1.0 / 5.0), (-0.31, 0.22, -0.43), (0.49, -0.05, 0.11), (0.02, 0.03, -0.01),
             (-0.499, 0.499, 0.25)]
@@ -102,6 +104,24 @@ def gen_mic_copies(rng, lengths, nsep):
                               "c2": f2b(c2), "sep": bits(sep), "dir": d, "speed": f2b(rng.choice([1.0, 0.4, 2.5])),
                               "L": f2b(L), "via": via}
                         out.append({"fam": "miccopy", "op": op})
+    return out
+
+
+def gen_mic_scaling(rng, lengths, nsep):
+    """lattice sum at every box length of the pool (tiny to huge boxes) at the same relative separations: compared
+    with the brute-force Ewald reference at that length, with the L = 1 potential through the exact scaling law
+    D_L(s) = D_1(s / L) / L^2, and with another splitting parameter"""
+    out = []
+    for L in lengths:
+        rels = [REL_SEPS[0]] + rng.sample(REL_SEPS[1:], min(nsep - 1, len(REL_SEPS) - 1))
+        if nsep > len(REL_SEPS):
+            rels += [tuple(rng.uniform(-0.5, 0.5) for _ in range(3)) for _ in range(nsep - len(REL_SEPS))]
+        for j, rel in enumerate(rels):
+            for d in range(3):
+                c2 = 1.0 if (j + d) % 2 == 0 else -1.0
+                op = {"k": "mic_der", "alpha": f2b(3.45), "fc": 6, "pc": 2, "pref": f2b(1.0), "c1": f2b(1.0),
+                      "c2": f2b(c2), "sep": bits([t * L for t in rel]), "dir": d, "speed": f2b(1.0), "L": f2b(L)}
+                out.append({"fam": "micscale", "op": op, "rel": list(rel)})
     return out
 
 
@@ -272,6 +292,9 @@ def run(ctx, cases_override=None):
         lengths = sorted(set(BOX_POOL) | set(shipped_box_lengths(ctx)))
         cases += gen_bend(rng, int(N * 0.1)) + gen_mic(rng, ctx.n(40, 300), lengths=[1.0] + lengths)
         cases += gen_mic_copies(rng, lengths, ctx.n(2, 6))
+        all_lengths = sorted(set(lengths) | set(SCALE_POOL))
+        cases += gen_mic_scaling(rng, all_lengths, ctx.n(2, 5))
+        cases += gen_mic(rng, ctx.n(18, 120), lengths=SCALE_POOL)
         # near the minimum of the Mexican hats (cancellation in r - r0) and near the axis planes
         for c in cases:
             if c["fam"] in ("lj", "dep", "ip") and rng.random() < 0.1:
@@ -302,6 +325,14 @@ def run(ctx, cases_override=None):
             o0 = dict(op)
             o0.pop("via", None)
             add(i, "orig", o0)
+        if c["fam"] == "micscale":
+            o1 = dict(op)
+            o1["L"] = f2b(1.0)
+            o1["sep"] = bits(c["rel"])
+            add(i, "unit", o1)
+            o2 = dict(op)
+            o2["alpha"], o2["fc"], o2["pc"] = f2b(2.9), 8, 3
+            add(i, "alpha2", o2)
         if c["fam"] in ("ipc", "mic"):
             d = op["dir"]
             s = sepv(op)
@@ -358,7 +389,8 @@ def run(ctx, cases_override=None):
 
     viol = []
     coq_cases, idx, evs = [], [], {}
-    n_fd = n_scale = n_mic = n_copy = 0
+    n_fd = n_scale = n_mic = n_copy = n_scaling = 0
+    scale_err = []
     mic_err = []
     copy_err = []
     ref_cache = {}
@@ -478,6 +510,27 @@ def run(ctx, cases_override=None):
                 viol.append((c, g["orig"], "lattice-sum derivative (L=%r) %r differs from the brute-force Ewald "
                              "reference %r" % (L, og[0], ref)))
             continue
+        if c["fam"] == "micscale":
+            n_scaling += 1
+            d = op["dir"]
+            L = fl(op, "L")
+            s = sepv(op)
+            cc = fl(op, "pref") * fl(op, "c1") * fl(op, "c2") * sp
+            rmin2 = sum(min(abs(t), L - abs(t)) ** 2 for t in s)
+            ref_scale = abs(cc) * (1.0 / L ** 2 + 1.0 / max(rmin2, 1e-300))
+            un, a2 = val(g["unit"]), val(g["alpha2"])
+            if un is None or abs(un[0] / L ** 2 - main[0]) > 1e-9 * ref_scale:
+                viol.append((c, g["main"], "lattice sum violates the scaling law D_L(s) = D_1(s/L)/L^2 at L=%r: %r vs "
+                             "%r" % (L, main[0], None if un is None else un[0] / L ** 2)))
+            if a2 is None or abs(a2[0] - main[0]) > 1e-9 * ref_scale:
+                viol.append((c, g["main"], "lattice sum at L=%r depends on the Ewald splitting parameter: alpha=3.45 -> "
+                             "%r, alpha=2.9 -> %r" % (L, main[0], a2)))
+            ref = ewald_reference([s[d], s[(d + 1) % 3], s[(d + 2) % 3]], L) * cc
+            scale_err.append(abs(ref - main[0]) / ref_scale)
+            if abs(ref - main[0]) > 1e-9 * ref_scale:
+                viol.append((c, g["main"], "lattice-sum derivative at L=%r: %r differs from the brute-force Ewald "
+                             "reference %r" % (L, main[0], ref)))
+            continue
         if c["fam"] == "mic":
             n_mic += 1
             d = op["dir"]
@@ -577,6 +630,9 @@ def run(ctx, cases_override=None):
         "lattice_sum_instances": {"cases": n_copy, "instances": COPY_VIAS,
                                   "box_lengths": sorted({b2f(c["op"]["L"]) for c in cases if c["fam"] == "miccopy"}),
                                   "max_deviation_from_bruteforce_ewald_over_scale": max(copy_err) if copy_err else None},
+        "lattice_sum_box_scaling": {"cases": n_scaling,
+                                    "box_lengths": sorted({b2f(c["op"]["L"]) for c in cases if c["fam"] == "micscale"}),
+                                    "max_deviation_from_bruteforce_ewald_over_scale": max(scale_err) if scale_err else None},
         "lattice_sum": {"points": n_mic, "compared_with_bruteforce_ewald": len(mic_err),
                         "max_deviation_over_scale": max(mic_err) if mic_err else None,
                         "status": "numerical validation only (partial): not modelled in Coq"},
